@@ -296,6 +296,42 @@ func runC12(c *core.Ctx) {
 			c.Distinct("droprebind", src, gen.DescribeEnv(bind))
 		}
 	}
+	// ---- after a loop its variable and forloop are what they were before: undefined again, which strict mode shows --------------
+	if c.Shard == 15%c.NShards && c.Begin("strict mode after loops; one empty bindings map used twice") {
+		se := liquid.NewEngine()
+		se.StrictVariables()
+		for _, cs := range []struct {
+			src     string
+			b       map[string]any
+			want    string
+			failing bool
+		}{
+			{"{% for i in (1..2) %}{{ i }}{% endfor %}[{{ i }}]", nil, "", true}, {"{% for i in (1..2) %}{{ i }}{% endfor %}[{{ forloop }}]", nil, "", true},
+			{"{% for i in (1..2) %}{{ i }}{% endfor %}[{{ i }}]", map[string]any{"i": "outer"}, "12[outer]", false}, {"{% tablerow i in (1..2) %}{% endtablerow %}{{ i }}", nil, "", true},
+			{"{% for i in (1..3) %}{% if i == 2 %}{% break %}{% endif %}{% endfor %}{{ i }}", nil, "", true}, {"{% capture c %}{% for i in (1..2) %}{{ i }}{% endfor %}{% endcapture %}{{ c }}{{ i }}", nil, "", true},
+			{"{% for i in (1..2) %}{% for j in (1..2) %}{% endfor %}{{ j }}{% endfor %}", nil, "", true}, {"{% assign i = 5 %}{% for i in (1..2) %}{% endfor %}{{ i }}", nil, "5", false},
+			{"{% for i in (1..2) %}{{ i }}{% endfor %}", nil, "12", false},
+		} {
+			res := core.Run(se, cs.src, cs.b)
+			c.Eval(1)
+			c.Obs("strict_after_loop_cases", 1)
+			c.Distinct("strictloop", cs.src, fmt.Sprint(cs.b))
+			if cs.failing && !res.Failed() || !cs.failing && (!res.OK() || res.Out != cs.want) {
+				c.Violate("loop-restore|strict|"+resClass(res), "when a loop ends its variable and forloop have the values they had before: a name that was undefined is undefined again (an error in strict-variables mode)",
+					map[string]any{"source": cs.src, "bindings": fmt.Sprint(cs.b), "expected": map[bool]string{true: "an undefined-variable error", false: cs.want}[cs.failing], "observed": res.Brief()})
+			}
+		}
+		// one empty, non-nil bindings map handed to two renders: nothing of the first may be visible in the second
+		shared := map[string]any{}
+		first := core.Run(e, "{% assign a = 1 %}{% capture cc %}x{% endcapture %}{% for i in (1..2) %}{{ i }}{% endfor %}{{ a }}{{ cc }}", shared)
+		second := core.Run(e, "[{{ a }}{{ cc }}{{ i }}{{ forloop }}]", shared)
+		c.Eval(2)
+		c.Obs("strict_after_loop_cases", 1)
+		if !first.OK() || first.Out != "121x" || !second.OK() || second.Out != "[]" || len(shared) != 0 {
+			c.Violate("assign-leaks-into-empty-bindings", "variables set by assign, capture and loops live for one render: a second render given the same (empty) bindings map must not see them, and the map stays empty",
+				map[string]any{"first": first.Brief(), "second": second.Brief(), "keys_in_the_callers_map": len(shared)})
+		}
+	}
 	// ---- assign evaluates its right-hand side every time it runs: per iteration, and per render of one parsed template ----------
 	if c.Shard == 13%c.NShards && c.Begin("assign re-evaluates") {
 		for _, cs := range []struct {
